@@ -202,3 +202,92 @@ def replay_heap_dump(path, prop, variants_name="heap_variants", min_len=1, procs
             if len(samples) < 3:
                 samples += s
     return total, bad, samples[:3]
+
+
+# ------------------------------------------------------------------ C19: same case under both index widths
+def same_outcome(exp, a, b):
+    """are the two observed outcomes the same in everything the specification claims for this case?"""
+    if a[0] == "raised" and b[0] == "raised":
+        return True                                     # exception types are not distinguished
+    if exp is not None and exp[0] == "shape" and a[0] == b[0] == "ragged":      # empty_like: content is uninitialised memory
+        return a[1] == b[1] and [len(r) for r in a[2]] == [len(r) for r in b[2]]
+    if exp is not None and exp[0] in ("partial", "pcol") and a[0] == b[0] and len(a) > 2 and len(b) > 2 and len(a[2]) == len(b[2]) == len(exp[3]):
+        return a[1] == b[1] and all(m != 1 or repr(x) == repr(y) for x, y, m in zip(a[2], b[2], exp[3]))
+    return repr(a) == repr(b)
+
+
+def _c19_worker(args):
+    path, start, end, family, want_phase = args
+    vmod = importlib.import_module("harness.props")
+    with open(path, "rb") as f:
+        f.seek(start)
+        text = f.read(end - start).decode()
+    stats = {"cases": 0, "evals": 0, "ok": 0, "unspec": 0, "nontrivial": 0, "wrong_in_both": 0}
+    bad, samples = [], []
+    if family == "heap":
+        from . import exec_heap
+        for body in tlaparse.split_states(text):
+            st = tlaparse.parse_state(body, ("hist", "heap", "bufs", "view", "stale", "last"))
+            prog = st.get("hist")
+            if not prog:
+                continue
+            stats["cases"] += 1
+            stats["nontrivial"] += len(prog) >= 2
+            runs = {}
+            for w in (64, 32):
+                try:
+                    signal.signal(signal.SIGALRM, _alarm)
+                    signal.alarm(CASE_TIMEOUT)
+                    runs[w] = exec_heap.run_program(prog, {"width": w}, observe="last")[-1]
+                except _Timeout:
+                    runs[w] = {"res": ["noreturn"], "obs": None}
+                finally:
+                    signal.alarm(0)
+                stats["evals"] += 1
+            if repr(runs[64]) == repr(runs[32]):
+                stats["ok"] += 1
+            else:
+                bad.append({"steps": prog, "opts": {"width": "64 vs 32"}, "verdict": "width", "expected": runs[64], "observed": runs[32], "handle": 0})
+        return stats, bad, samples
+    fam = importlib.import_module("harness.exec_" + family)
+    for body in tlaparse.split_states(text):
+        st = tlaparse.parse_state(body, ("case", "exp", "phase"))
+        if st.get("phase") != want_phase:
+            continue
+        case, exp = st["case"], st["exp"]
+        stats["cases"] += 1
+        stats["nontrivial"] += bool(vmod.nontrivial("C19", case))
+        if len(samples) < 1:
+            samples.append({"case": case, "expected": exp})
+        for opts in vmod.variants("C19", case)[-1:]:
+            o64, o32 = dict(opts, width=64), dict(opts, width=32)
+            a = run_case(fam.execute, case, o64)
+            b = run_case(fam.execute, case, o32)
+            stats["evals"] += 2
+            va, vb = judge(exp, a, True), judge(exp, b, True)
+            if exp[0] == "unspec":
+                stats["unspec"] += 1                   # outside the claim of the source property: not judged
+            elif same_outcome(exp, a, b):
+                stats["ok"] += 1
+                if va not in ("ok", "unspec"):
+                    stats["wrong_in_both"] += 1        # charged to the case's own property, not to C19
+            else:
+                bad.append({"case": case, "opts": opts, "expected": a, "observed": b, "verdict": "width", "spec": exp,
+                            "verdict64": va, "verdict32": vb})
+    return stats, bad, samples
+
+
+def replay_c19(path, family, want_phase=2, procs=NCPU):
+    offs = _split_offsets(path, procs * 4)
+    tasks = [(path, a, b, family, want_phase) for a, b in zip(offs, offs[1:])]
+    total = {"cases": 0, "evals": 0, "ok": 0, "unspec": 0, "nontrivial": 0, "wrong_in_both": 0}
+    bad, samples = [], []
+    ctx = mp.get_context("fork")
+    with ctx.Pool(procs) as pool:
+        for stats, b, s in pool.imap_unordered(_c19_worker, tasks):
+            for k in total:
+                total[k] += stats[k]
+            bad += b
+            if len(samples) < 3:
+                samples += s
+    return total, bad, samples[:3]
